@@ -4,6 +4,7 @@ package main
 // concretised signatures (this chain / another chain / another registered domain / flipped bits).
 
 import (
+	"github.com/oasisprotocol/oasis-core/go/common/version"
 	"crypto/ed25519"
 	"crypto/sha512"
 	"fmt"
@@ -39,6 +40,8 @@ type cnTxSpec struct {
 	Rotate   string `json:"rotate,omitempty"`   // regnode: none | fresh:<role> | move:<from>><to> | swap:<a>:<b>
 	Node     string `json:"node,omitempty"`     // regnode: the node being registered (the signer may be someone else)
 	Runtimes string `json:"runtimes,omitempty"` // regnode: "" (validator only) | "R0" | "R0,R1": compute role for these runtimes
+	RtVers   string `json:"rtvers,omitempty"`   // regnode: runtime versions the node runs, "R0:1,R1:0" (default 0)
+	Deps     string `json:"deps,omitempty"`     // regruntime: deployments in descriptor order, "ver@validFrom;ver@validFrom" (default "0@0")
 	Gov      string `json:"gov,omitempty"`      // regruntime: entity | runtime
 	Shape    string `json:"shape,omitempty"`    // regruntime: "g<workers>b<backups>m<max nodes per entity, 0 = unset>p<min pool: workers+this>v<validator-set constraint 0/1>s<allowed stragglers>"
 	Entity   string `json:"entity,omitempty"`   // regnode: register the node under this entity instead of its own
@@ -195,8 +198,18 @@ func (n *cnNet) buildTx(spec *cnTxSpec, rng *rand.Rand) ([]byte, error) {
 				return
 			}
 			nd.Roles |= node.RoleComputeWorker
+			vers := map[string]uint16{}
+			for _, kv := range strings.Split(spec.RtVers, ",") {
+				var r string
+				var v int
+				if i := strings.IndexByte(kv, ':'); i > 0 {
+					r = kv[:i]
+					fmt.Sscanf(kv[i+1:], "%d", &v)
+					vers[r] = uint16(v)
+				}
+			}
 			for _, r := range strings.Split(rts, ",") {
-				nd.Runtimes = append(nd.Runtimes, &node.Runtime{ID: runtimeID(r)})
+				nd.Runtimes = append(nd.Runtimes, &node.Runtime{ID: runtimeID(r), Version: version.Version{Patch: vers[r]}})
 			}
 		})
 		if err != nil {
@@ -235,6 +248,16 @@ func (n *cnNet) buildTx(spec *cnTxSpec, rng *rand.Rand) ([]byte, error) {
 		}
 		if spec.Gov == "runtime" {
 			rt.GovernanceModel = registry.GovernanceRuntime
+		}
+		if spec.Deps != "" {
+			rt.Deployments = nil
+			for _, dv := range strings.Split(spec.Deps, ";") {
+				var v, from int
+				if _, err := fmt.Sscanf(dv, "%d@%d", &v, &from); err != nil {
+					return nil, fmt.Errorf("bad deployment %q", dv)
+				}
+				rt.Deployments = append(rt.Deployments, &registry.VersionInfo{Version: version.Version{Patch: uint16(v)}, ValidFrom: beacon.EpochTime(from)})
+			}
 		}
 		if spec.Shape != "" {
 			var g, b, m, p, vs, st int
